@@ -61,3 +61,30 @@ def run_create(ctx):
     if not summary or summary["schedules"] == 0:
         raise Broken("mcreate replayed nothing")
     return r, summary
+
+
+def run_blocked(ctx):
+    """MpxBlocked.tla: a Send / SendAndClose / Free blocked on the connection's full write queue while the peer ends the
+    channel and the congestion ends (the peer reads again, or drops the connection), in every order; replayed by mblocked."""
+    r = tlc.run_tlc(ctx.scratch("blocked"), "MpxBlocked.tla", "MpxBlocked.cfg", timeout=600, workers=2, out_name="blocked.out", heap="2g")
+    tlc.require_ok(r, "MpxBlocked")
+    binp = ctx.go_build("mblocked")
+    p = ctx.run([binp, "-in", r.outfile], timeout=2400)
+    if p.returncode != 0:
+        raise Broken("mblocked failed: %s" % p.stderr[-2000:])
+    summary = None
+    for line in p.stdout.splitlines():
+        if not line.startswith("{"):
+            continue
+        d = json.loads(line)
+        if "summary" in d:
+            summary = d["summary"]
+        elif d["sig"] == "harness":
+            raise Broken("mblocked: " + d["detail"])
+        else:
+            ctx.violation("blocked:" + d["sig"], "%s | schedule: %s" % (d["detail"], d["sched"]), d)
+    if not summary or summary["schedules"] == 0:
+        raise Broken("mblocked replayed nothing")
+    if summary["conclusive"] * 5 < summary["schedules"] * 4 and not ctx.violations:
+        raise Broken("mblocked: the congestion could be produced in %d of %d schedules only" % (summary["conclusive"], summary["schedules"]))
+    return r, summary
